@@ -16,62 +16,76 @@ Rec == ndJsonDeserialize(IOEnv.TRACE)
 
 VARIABLES l,        \* next event to consume
           sw,       \* the TryUpdateActiveBlob in progress did switch the active blob
+          cur,      \* request being processed (its optype), -1: none - then try_run belongs to the timer branch
+          applied,  \* the transition of the request in progress was taken at its try_run observation
           mem,      \* blobs whose index is in memory
           act,      \* id of the active blob (-1: none)
           fires     \* deferred dumps fire in this execution (otherwise they are set to one hour)
 
-tvars == <<wvars, l, sw, mem, act, fires>>
+tvars == <<wvars, l, sw, cur, applied, mem, act, fires>>
 E == Rec[l]
 
-TInit == WInit /\ l = 1 /\ sw = FALSE /\ mem = {} /\ act = -1 /\ fires = FALSE
+TInit == WInit /\ l = 1 /\ sw = FALSE /\ cur = -1 /\ applied = FALSE /\ mem = {} /\ act = -1 /\ fires = FALSE
 
 Keep == UNCHANGED <<chan, dirty, fresh, reqs>>
 Same == UNCHANGED <<deferred, deadline, task, progress>>
+Rest == UNCHANGED <<sw, cur, applied, mem, act, fires>>
 
-\* is_finished() answered `busy`: a returned task becomes finished exactly when it is seen so
-Observe(busy) ==
-  IF busy = 0 /\ task = "exiting" THEN task' = "finished" /\ UNCHANGED <<deferred, deadline, progress>>
-  ELSE (busy = 1) = TaskBusy /\ Same
+(* Grain of atomicity.  A request that calls try_run_old_blob_indexes_dump_task is ONE action of   *)
+(* PearlWorker; in the code it is the observation of is_finished() (hook `wbusy`), the spawn and   *)
+(* some bookkeeping of fields that only the worker touches.  The action is taken at the `wbusy`     *)
+(* event (nothing that follows in the same request is visible to anybody else); `worker_end` /      *)
+(* `wtimer_end` then only close the request.  JoinHandle::is_finished turns true some time after    *)
+(* the task's future returned (`wtask_end`): the moment is not observable, so the specification    *)
+(* branches (returned / finished) and the observations (`busy` of `wbusy` and `wstate`) prune.      *)
 
 ConsumeW ==
   CASE E.ev = "reset" ->        \* a new execution: fresh directory
          /\ deferred' = FALSE /\ deadline' = FALSE /\ task' = "none" /\ progress' = 0
-         /\ sw' = FALSE /\ mem' = {} /\ act' = -1 /\ fires' = (E.op = "fires")
+         /\ sw' = FALSE /\ cur' = -1 /\ applied' = FALSE /\ mem' = {} /\ act' = -1 /\ fires' = (E.op = "fires")
     [] E.ev = "wstart" ->       \* a new storage object: new worker
          /\ deferred' = FALSE /\ deadline' = FALSE /\ task' = "none" /\ progress' = 0
-         /\ sw' = FALSE /\ mem' = {} /\ UNCHANGED <<act, fires>>
+         /\ sw' = FALSE /\ cur' = -1 /\ applied' = FALSE /\ mem' = {} /\ UNCHANGED <<act, fires>>
     [] E.ev = "wstate" ->       \* top of a loop iteration: the state the code is in
          /\ deferred = (E.deferred = 1) /\ deadline = (E.deadline = 1)
-         /\ Observe(E.busy) /\ UNCHANGED <<sw, mem, act, fires>>
-    [] E.ev = "wbusy" -> Observe(E.busy) /\ UNCHANGED <<sw, mem, act, fires>>
+         /\ IF task = "exiting"
+            THEN task' \in (IF E.busy = 0 THEN {"finished"} ELSE {"exiting", "finished"})
+            ELSE (E.busy = 1) = (task = "run") /\ UNCHANGED task
+         /\ UNCHANGED <<deferred, deadline, progress>> /\ Rest
+    [] E.ev = "worker_begin" -> cur' = E.optype /\ Same /\ UNCHANGED <<sw, applied, mem, act, fires>>
+    [] E.ev = "wupdate" -> sw' = (E.switched = 1) /\ Same /\ UNCHANGED <<cur, applied, mem, act, fires>>
+    [] E.ev = "wbusy" ->
+         /\ (E.busy = 1) = TaskBusy
+         /\ CASE cur = 4 -> MsgDump
+              [] cur = 5 -> sw /\ ~deferred /\ MsgUpdateSwitched
+              [] cur = -1 -> deadline /\ (IF E.busy = 1 THEN TimerDueBusy ELSE TimerDueStart)
+         /\ applied' = TRUE /\ UNCHANGED <<sw, cur, mem, act, fires>>
     [] E.ev = "wtask_end" ->
-         /\ task = "run" /\ task' = "exiting" /\ UNCHANGED <<deferred, deadline, progress, sw, mem, act, fires>>
-    [] E.ev = "wupdate" -> sw' = (E.switched = 1) /\ Same /\ UNCHANGED <<mem, act, fires>>
+         /\ task = "run" /\ task' \in {"exiting", "finished"} /\ UNCHANGED <<deferred, deadline, progress>> /\ Rest
     [] E.ev = "worker_end" ->
-         /\ CASE E.optype = 6 -> MsgDefer
-              [] E.optype = 4 -> MsgDump
-              [] E.optype = 5 -> IF sw THEN MsgUpdateSwitched ELSE Same
-              [] OTHER -> Same
-         /\ sw' = FALSE /\ UNCHANGED <<mem, act, fires>>
+         /\ IF applied THEN Same
+            ELSE CASE E.optype = 6 -> MsgDefer
+                   [] E.optype = 5 /\ sw -> deferred /\ MsgUpdateSwitched     \* attached to the registered deferred dump
+                   [] OTHER -> Same
+         /\ sw' = FALSE /\ cur' = -1 /\ applied' = FALSE /\ UNCHANGED <<mem, act, fires>>
     [] E.ev = "wtimer_end" ->
-         /\ deadline
-         /\ CASE E.outcome = 0 -> TimerNothing
-              [] E.outcome = 1 -> TimerNotDue
-              [] E.outcome = 2 -> TimerDueStart
-              [] E.outcome = 3 -> TimerDueBusy
-         /\ UNCHANGED <<sw, mem, act, fires>>
-    [] E.ev = "loaded" -> mem' = mem \cup {E.id} /\ Same /\ UNCHANGED <<sw, act, fires>>
+         /\ IF applied THEN E.outcome \in {2, 3} /\ Same
+            ELSE /\ deadline
+                 /\ CASE E.outcome = 0 -> TimerNothing
+                      [] E.outcome = 1 -> TimerNotDue
+         /\ applied' = FALSE /\ UNCHANGED <<sw, cur, mem, act, fires>>
+    [] E.ev = "loaded" -> mem' = mem \cup {E.id} /\ Same /\ UNCHANGED <<sw, cur, applied, act, fires>>
     [] E.ev = "dumped" ->   \* an empty index has nothing to dump and stays in memory
-         mem' = (IF E.on_disk = 1 \/ E.count = 0 THEN mem \ {E.id} ELSE mem) /\ Same /\ UNCHANGED <<sw, act, fires>>
+         mem' = (IF E.on_disk = 1 \/ E.count = 0 THEN mem \ {E.id} ELSE mem) /\ Same /\ UNCHANGED <<sw, cur, applied, act, fires>>
     [] E.ev \in {"active_set", "active_restored", "active_replaced", "active_init"} ->
          \* a blob that becomes active has its index in memory
-         /\ act' = E.id /\ mem' = (IF E.id >= 0 THEN mem \cup {E.id} ELSE mem) /\ Same /\ UNCHANGED <<sw, fires>>
-    [] E.ev = "active_closed" -> act' = -1 /\ Same /\ UNCHANGED <<sw, mem, fires>>
+         /\ act' = E.id /\ mem' = (IF E.id >= 0 THEN mem \cup {E.id} ELSE mem) /\ Same /\ UNCHANGED <<sw, cur, applied, fires>>
+    [] E.ev = "active_closed" -> act' = -1 /\ Same /\ UNCHANGED <<sw, cur, applied, mem, fires>>
     [] E.ev = "quiescent" ->
          \* C13: nothing is left to run and no closed blob waits for its index dump
          /\ (fires /\ E.ok = 1) => (mem \ {act} = {} /\ ~deferred)
-         /\ Same /\ UNCHANGED <<sw, mem, act, fires>>
-    [] OTHER -> Same /\ UNCHANGED <<sw, mem, act, fires>>
+         /\ Same /\ Rest
+    [] OTHER -> Same /\ Rest
 
 TraceNext == l <= Len(Rec) /\ l' = l + 1 /\ ConsumeW /\ Keep
 TraceSpec == TInit /\ [][TraceNext]_tvars
